@@ -33,6 +33,8 @@ type C05Case struct {
 	Distinct bool              `json:"distinct,omitempty"`
 	UnionWin bool              `json:"union_win,omitempty"` // also run (ordered window) UNION ALL (window of the reversed order): each arm is its own sequence
 	Big      *BigKey           `json:"big,omitempty"`       // one key column handed over as native integers far beyond 2^53 (order-isomorphic to the small values in doc)
+	Scale    *Scale            `json:"scale,omitempty"`     // large table: t is expanded from the rows of the document by this recipe (first sort key spread over many values) before anything is computed
+	Stretch  bool              `json:"stretch,omitempty"`   // with Scale: LIMIT and OFFSET are stretched by the same factor as the table
 	GoTypes  map[string]string `json:"go_types,omitempty"`  // numeric columns handed over as native Go values of that type // SELECT DISTINCT: the window applies to the de-duplicated sequence
 }
 
@@ -40,7 +42,7 @@ func init() {
 	Register(&Prop{
 		ID:    "C05",
 		Title: "ORDER BY sorts, LIMIT/OFFSET return the exact window and never fail",
-		Rule: "rapid draws a table (0-10 rows, ties frequent), a select list that is `*` or columns under their own, fresh or mutually swapped output names, 0-3 sort keys among the output columns with random directions (a single key may be " +
+		Rule: "rapid draws a table (0-10 rows, ties frequent; about 3% of the cases expand it to 200-700 rows by a recipe, the first sort key spread over 3-700 values, LIMIT / OFFSET stretched along in half of them), a select list that is `*` or columns under their own, fresh or mutually swapped output names, 0-3 sort keys among the output columns with random directions (a single key may be " +
 			"nullable), an optional WHERE, an optional DISTINCT, numeric columns also as native Go types (one key column sometimes as int64 / int / uint64 / uint beyond 2^53) and an optional LIMIT n [OFFSET m] in all three spellings with n,m in 0..len+3; oracles: the unordered " +
 			"result equals the reference filter; the ordered result is a permutation of it whose adjacent pairs respect the key list " +
 			"lexicographically with NULL keys last (single key); the limited result has length min(n, max(0,|S|-m)), its key tuples equal those of " +
@@ -210,6 +212,30 @@ func genC05(t *rapid.T) any {
 			}
 		}
 	}
+	// scale: the whole sequence is ordered and the window exact whatever the size of the table
+	if c.Big == nil && len(tb.Rows) > 0 {
+		if sc := genScale(t, 16, "scale"); sc != nil {
+			if len(c.Keys) > 0 {
+				if kc := tb.Col(c.Keys[0].Col); kc != nil && (kc.Kind == "int" || kc.Kind == "num" || kc.Kind == "str") {
+					var pool []any
+					nk := rapid.SampledFrom([]int{3, 50, 200, 513, 700}).Draw(t, "scale.keys")
+					for j := 0; j < nk; j++ {
+						switch kc.Kind {
+						case "str":
+							pool = append(pool, strconv.Itoa(j))
+						case "int":
+							pool = append(pool, float64(j-nk/3))
+						default:
+							pool = append(pool, float64(j-nk/3)*0.25)
+						}
+					}
+					sc.genKeys(t, kc.Name, pool, "scale.key")
+				}
+			}
+			c.Scale = sc
+			c.Stretch = rapid.Bool().Draw(t, "scale.stretch")
+		}
+	}
 	return c
 }
 
@@ -295,6 +321,22 @@ func keyTuple(r any, keys []OrderKey) []any {
 
 func checkC05(c *C05Case) Result {
 	res := Result{}
+	if c.Scale != nil {
+		cc := *c
+		cc.Doc, cc.Scale = c.Scale.ExpandDoc(c.Doc, "t"), nil
+		if base, _ := c.Doc["t"].([]any); c.Stretch && len(base) > 0 {
+			f := c.Scale.Rows / (len(base) + 3)
+			if cc.Limit <= len(base)+3 {
+				cc.Limit *= f
+			}
+			if cc.Offset <= len(base)+3 {
+				cc.Offset *= f
+			}
+		}
+		res = checkC05(&cc)
+		res.Labels = append(res.Labels, "large-table")
+		return res
+	}
 	rows, _ := c.Doc["t"].([]any)
 	// reference for the unordered result
 	var items []SelItem
